@@ -29,7 +29,9 @@ VOCAB = {
     "x86": ["addq %rax, 8(%rbx)", "addq 8(%rbx), %rax", "add 8(%rbx), %rax", "vaddpd (%rax,%rcx,8), %ymm0, %ymm1", "vmulpd 16(%rsi), %xmm1, %xmm2", "movq %rax, (%rbx)",
             "sub (%rax), %rbx", "addq (%rax), %rbx", "xorq %rbx, (%rax)", "vmaskmovdqu (%rcx), %xmm2", "foo %rax, 8(%rbx)", "incq 8(%rax)", "vfmadd231pd (%rdx), %ymm2, %ymm3",
             "cmpq $1, 8(%rax)", "addq %rax, %rbx", "vaddpd %ymm0, %ymm1, %ymm2", "imulq 8(%rsi,%rdi,4), %rax", "vdivsd (%rax), %xmm1, %xmm2", "orl %ecx, 4(%rdx)", "vaddps (%rax), %zmm1, %zmm2",
-            "addq (%rsi), %rdi", "addq %rcx, (%rdx)", "subq $8, (%rsp)", "bar 8(%rbx), %rax"],
+            "addq (%rsi), %rdi", "addq %rcx, (%rdx)", "subq $8, (%rsp)", "bar 8(%rbx), %rax",
+            # indexed stores / read-modify-write (table rows with and without an index register differ on some models)
+            "addq %rax, 8(%rbx,%rcx,8)", "movq %rax, (%rbx,%rcx,8)", "vmovapd %ymm0, 16(%rax,%rdx,4)", "addq (%rax,%rbx), %rcx", "movq %rdx, 8(,%rax,8)"],
     "aarch64": ["ldr x1, [x2, #8]", "str q0, [x1], #16", "ldp d0, d1, [x3]", "fmla v0.2d, v1.2d, v2.2d", "ld1d {z0.d}, p0/z, [x0, x1, lsl #3]", "st1d {z0.d}, p0, [x0]",
                 "ldr q1, [x2, x3, lsl #4]", "foo x1, [x2]", "str x1, [x2, #8]", "ldr d0, [x1, #16]!", "stp q0, q1, [x2]", "ldur d3, [x4, #-8]", "ldrsw x5, [x6, x7, lsl #2]", "stur q1, [x0, #-16]",
                 "add x1, x2, x3", "ld1 {v0.2d, v1.2d}, [x1]", "st1 {v0.4s}, [x2], #16", "ldnp q0, q1, [x1]", "prfm pldl1keep, [x1, #256]"],
